@@ -36,6 +36,19 @@ CHECKS = {
     "C14": ("proof", "reset_rules executed symbolically with @contextmanager semantics: on both continuations of the yield the snapshot is restored in all four rulers (POST and POST-raise discharged); Ruler mutators keep RI on "
             "KeyError exits; frame obligations hold at every program point so a raising callback leaves rules/options/renderer table untouched.",
             TB + " The with-body is assumed to use only the public Ruler API. Crash-point monitor as bounded stand-in.", DED + "; frame back end; bounded crash-point monitor", "4 C14"),
+    "C05": ("other", MIX + "LANG: no URL accepted by validateLink (its own control structure and regex literals after strip+lower) lies in the dangerous-scheme language (z3 regex solver, witness replayed natively); "
+            "TYPESTATE: at every href/src store site of the six producers and at the writer of env references the value is '' or normalizeLink's result tested by validateLink on that path, or read from env references.",
+            TB + " mdurl.encode's output alphabet is an assumed contract on the dependency (monitored on the bounded inputs).", "regular-language inclusion + path-sensitive typestate analysis of the real source; bounded URL monitor", "4 C05"),
+    "C10": ("other", MIX + "VOCAB: token types created by each registered rule function (registries read from the source) lie in the rule's declared vocabulary; GUARD: html tokens only under options.html; ROUTE: OptionsDict "
+            "attribute and item access use the same backing key, enable/disable fan out to all four rulers; Ruler mutators (pyvc) have exact set semantics and invalidate the compiled chains.",
+            TB + " 'a rule that returns False without effects is a no-op in a dispatch loop' is a composition step.", DED + "; literal/dominance obligations; bounded vocabulary and conservativity monitors", "4 C10"),
+    "C16": ("other", MIX + "ENUM: for all 1 112 064 Unicode scalar values equal case folding implies equal normalizeReference (complete enumeration on the real function); GUARD: first definition wins, later ones go to duplicate_refs, "
+            "both with the map of their own lines; the same normalisation is used by definitions and by link/image lookups, which only .get from env; the API passes the caller's env object through.",
+            TB + " Lifting single-character case folding to strings is a composition step.", "exhaustive enumeration + dominance obligations on the real source; bounded seeding/form/label monitors", "4 C16"),
+    "C18": ("other", MIX + "READS: renderer-only options are read (directly or through direct calls) only by their documented renderer functions and by nothing on the parse side; ORDER: the core inline rule hands exactly "
+            "(content, md, env, children) to ParserInline.parse and StateInline.level starts at 0, so inline parsing does not depend on the block context.", TB, "reads/order obligations on the real source; bounded embedding and option-inertness monitors", "4 C18"),
+    "C19": ("other", MIX + "replace_scoped/replace_rare verified by pyvc: GUARD at every content store (text token, no auto link open; counter invariant), postcondition 'only content of text tokens outside autolinks changes'; "
+            "smartquotes: dominance GUARDs for every content store and stack push; ORDER: text_join runs after the typographic rules.", TB, DED + "; dominance obligations; bounded shape/locality monitor", "4 C19"),
     "C15": ("other", MIX + "FRAME obligations: renderer/token/tree functions write only per-call objects (repeatable rendering as a frame fact); dict/tree round trips and render-twice monitored on parser output.", TB, "frame obligations + bounded round-trip monitors", "4 C15"),
 }
 
